@@ -750,7 +750,10 @@ func (state *RuntimeState) setNewAuthCookie(w http.ResponseWriter,
 	return cookieVal, nil
 }
 
-func (state *RuntimeState) updateAuthCookieAuthlevel(w http.ResponseWriter, r *http.Request, authlevel int) (string, error) {
+// updateAuthCookieAuthlevel re-issues the session cookie of the request at the
+// given level. The cookie must belong to username, the identity the request
+// authenticated as (which need not come from the cookie: see checkAuth).
+func (state *RuntimeState) updateAuthCookieAuthlevel(w http.ResponseWriter, r *http.Request, username string, authlevel int) (string, error) {
 	var authCookie *http.Cookie
 	for _, cookie := range r.Cookies() {
 		if cookie.Name != authCookieName {
@@ -764,7 +767,7 @@ func (state *RuntimeState) updateAuthCookieAuthlevel(w http.ResponseWriter, r *h
 	}
 
 	var err error
-	cookieVal, err := state.updateAuthJWTWithNewAuthLevel(authCookie.Value, authlevel)
+	cookieVal, err := state.updateAuthJWTWithNewAuthLevel(authCookie.Value, username, authlevel)
 	if err != nil {
 		return "", err
 	}
